@@ -4,6 +4,7 @@ CONSTANTS
   Depth = 3
   MinDepth = 3
   SynDepth = 2
+  Outer3 <- Contexts
   MaxIn = 4
 INVARIANTS TypeOK CleanupOnce HandlerFirstMatch NoneLost EscapeIntact FinalOK RejectedNeverRuns
 CHECK_DEADLOCK FALSE
